@@ -76,8 +76,8 @@ uintmax_t strtoumax(const char *restrict nptr, char **restrict endptr,
 	if (base == 0) {
 		base = c == '0' ? 8 : 10;
 	}
-	cutoff = (unsigned long) UINTMAX_MAX / (unsigned long) base;
-	cutlim = (unsigned long) UINTMAX_MAX % (unsigned long) base;
+	cutoff = UINTMAX_MAX / (uintmax_t) base;
+	cutlim = UINTMAX_MAX % (uintmax_t) base;
 	for (acc = 0, any = 0;; c = *s++) {
 		if (isdigit(c)) {
 			c -= '0';
